@@ -65,13 +65,18 @@ def _no_nul(b, s, name):
     from pyvc.sbytes import SBytes
     if isinstance(s, SBytes) and s.chunks:
       f = s.chunks[0][1]
-      i = z3.Int(name + "!i")
-      b.assume(z3.ForAll([i], z3.And(f(i) >= 1, f(i) <= 255)))
+      n = s.fixed_length()
+      for i in range(n):
+        b.assume(z3.And(f(i) >= 1, f(i) <= 255))
   else:
-    b.assume("\0" not in s)
+    if "\0" in s:
+      s2 = s.replace("\0", "x")
+      b.drawn[name] = s2.encode("latin-1").hex()
+      return s2
+  return s
 
 
-def build_fields(b, table, prefix, obj, vals, budget):
+def build_fields(b, table, prefix, obj, vals, budget, fixed_text=None):
   """declare symbolic inputs for every field of `table`, store them into obj, record them in vals.
   returns the (symbolic) number of variable bytes"""
   var = 0
@@ -92,7 +97,10 @@ def build_fields(b, table, prefix, obj, vals, budget):
       vals[f[1]] = raw
     elif k == "zs":
       name = f[2]
-      s = b.short_text(prefix + name, f[1])
+      if fixed_text is None:
+        s = b.short_text(prefix + name, f[1])
+      else:
+        s = _no_nul(b, b.str(prefix + name, fixed_text), prefix + name)
       b.set(obj, name, s)
       vals[name] = _encode(b, s)
     elif k == "tail":
